@@ -562,10 +562,30 @@ func ruleVerdictKept(c *Ctx, a *udpAnchors, rule string) {
 				}
 			}
 		}
+		check := func(at ssa.Instruction, i int, rv ssa.Value) {
+			n++
+			good, bad := p.AllFrom(rv, eng.OriginOpts{ThroughConvert: true}, func(x ssa.Value) bool {
+				if x == verr {
+					return true
+				}
+				cc, ok := x.(*ssa.Call)
+				if !ok {
+					return false
+				}
+				h := cc.Call.StaticCallee()
+				idx, isP := preserving[h]
+				if !isP || idx >= len(cc.Call.Args) {
+					return false
+				}
+				return p.AnyFrom(cc.Call.Args[idx], eng.OriginOpts{ThroughConvert: true}, func(y ssa.Value) bool { return y == verr })
+			})
+			c.CheckAt(rule, fmt.Sprintf("%s:validator-verdict-keeps-its-status#%d", short(f), i), at, good, "a destination rejected by the validator is reported with a status chosen here, not with the status the validator's error carries ("+valsStr(p, bad)+"): the datagram is counted under a status that names another outcome")
+		}
 		for _, e := range sortedEdges(fail) {
 			reach := eng.ReachBlocks(e.To, nil)
+			only := eng.EdgeSet{e: true}
 			for _, r := range eng.Returns(f) {
-				if !reach[r.Block()] || len(e.To.Preds) != 1 {
+				if !reach[r.Block()] {
 					continue
 				}
 				for i, res := range r.Results {
@@ -576,27 +596,20 @@ func ruleVerdictKept(c *Ctx, a *udpAnchors, rule string) {
 					if s := p.ReachingStore(rv, r); s != nil {
 						rv = s
 					}
-					// only returns that belong to this failure (dominated by the failure edge)
-					if !eng.Cut(f, r.Block(), eng.EdgeSet{e: true}) {
+					if len(e.To.Preds) == 1 && eng.Cut(f, r.Block(), only) {
+						// a return that belongs to this failure only
+						check(r, i, rv)
 						continue
 					}
-					n++
-					good, bad := p.AllFrom(rv, eng.OriginOpts{ThroughConvert: true}, func(x ssa.Value) bool {
-						if x == verr {
-							return true
+					// a single exit: the value that arrives from the failure branch
+					if ph, isPhi := rv.(*ssa.Phi); isPhi {
+						for k, ev := range ph.Edges {
+							pred := ph.Block().Preds[k]
+							if (pred == e.From && ph.Block() == e.To) || (len(e.To.Preds) == 1 && (pred == e.To || eng.Cut(f, pred, only))) {
+								check(r, i, ev)
+							}
 						}
-						cc, ok := x.(*ssa.Call)
-						if !ok {
-							return false
-						}
-						h := cc.Call.StaticCallee()
-						idx, isP := preserving[h]
-						if !isP || idx >= len(cc.Call.Args) {
-							return false
-						}
-						return p.AnyFrom(cc.Call.Args[idx], eng.OriginOpts{ThroughConvert: true}, func(y ssa.Value) bool { return y == verr })
-					})
-					c.CheckAt(rule, fmt.Sprintf("%s:validator-verdict-keeps-its-status#%d", short(f), i), r, good, "a destination rejected by the validator is reported with a status chosen here, not with the status the validator's error carries ("+valsStr(p, bad)+"): the datagram is counted under a status that names another outcome")
+					}
 				}
 			}
 		}
